@@ -372,11 +372,12 @@ def wrapGuards (c : Ctx) (e : Engine) (o : Obj) (w : WrapSpec) (cr : Crypto) : R
     if !hasBit (key.mask.getD 0) Mask.wrapKey then
       kerr Rsn.permissionDenied "The WrapKey bit must be set." else
     if w.attributeNames > 0 then kerr Rsn.illegalOperation "Wrapping object attributes is not supported." else
+    if !w.encKeyHasParams then
+      kerr Rsn.invalidField "The cryptographic parameters of the encryption key information must be specified." else
     if w.encodingOption != some 1 then kerr Rsn.encodingOptionError "Encoding option is not supported." else
-    if !w.encKeyHasParams then ierr "encryption_key_params is None" else
-    let token ← cryptoToken cr
-    if o.otype == OT.certificate || o.otype == OT.opaqueData then ierr "core secret has no key_block" else
-    pure token
+    if o.otype == OT.certificate || o.otype == OT.opaqueData then
+      kerr Rsn.illegalOperation "Key wrapping is not supported for this object." else
+    cryptoToken cr
   | none =>
     if w.macKeyInfo then
       kerr Rsn.permissionDenied "Key wrapping with MAC/signing key information is not supported."
@@ -504,15 +505,11 @@ def opMac (c : Ctx) (e : Engine) (uid : Option String) (paramAlg : Option Nat) (
     kerr Rsn.permissionDenied "The cryptographic algorithm must be specified for the MAC operation" else
   if o.value = "" then kerr Rsn.permissionDenied "A secret key value must be specified for the MAC operation" else
   if !hasData then kerr Rsn.permissionDenied "No data to be MACed" else
-  match o.state with
-  | none => ierr "no attribute state"
-  | some s =>
-    if s != St.active then kerr Rsn.permissionDenied "Object is not in a state that can be used for MACing." else
-    match o.mask with
-    | none => ierr "no attribute cryptographic_usage_masks"
-    | some m =>
-      if !hasBit m Mask.macGenerate then kerr Rsn.permissionDenied "MAC Generate must be set." else
-      cryptoResult uid cr
+  -- `getattr(managed_object, 'state', None)` / `getattr(…, 'cryptographic_usage_masks', [])`
+  if o.state != some St.active then
+    kerr Rsn.permissionDenied "Object is not in a state that can be used for MACing." else
+  if !hasBit (o.mask.getD 0) Mask.macGenerate then kerr Rsn.permissionDenied "MAC Generate must be set." else
+  cryptoResult uid cr
 
 /-! ### SetAttribute / ModifyAttribute / DeleteAttribute -/
 def opSetAttribute (c : Ctx) (e : Engine) (uid : Option String) (a : TAttr) : R (Effect × Data) := do
@@ -526,7 +523,7 @@ def opSetAttribute (c : Ctx) (e : Engine) (uid : Option String) (a : TAttr) : R 
 def gotLength : Option Got → R Nat
   | some (.multi vs) => pure vs.length
   | some (.single _) => ierr "len() of a single value"
-  | none => ierr "len(None)"
+  | none => pure 0          -- `if existing_attributes is None: existing_attributes = []`
 
 def nthAttr (as : List TAttr) (i : Nat) (site : String) : R TAttr :=
   match as[i]? with
